@@ -22,6 +22,7 @@ import re
 import shutil
 import subprocess
 import sys
+import time
 
 REPO = os.environ.get("VK_REPO", "/repo")
 VERIF = os.path.dirname(os.path.dirname(os.path.abspath(__file__)))
@@ -141,7 +142,7 @@ def t1_rewrite(text):
     text = "".join(out)
     # fully qualified paths in expressions / types
     text, k1 = re.subn(r"\bstd::collections::(HashMap|HashSet|BTreeMap|BTreeSet|hash_map|btree_map)\b", r"verif_shim::\1", text)
-    text, k2 = re.subn(r"\bindexmap::(IndexMap|IndexSet)\b", r"verif_shim::indexmap::\1", text)
+    text, k2 = re.subn(r"(?<!verif_shim::)\bindexmap::(IndexMap|IndexSet|map::|set::)", r"verif_shim::indexmap::\1", text)
     return text, n + k1 + k2
 
 
@@ -199,7 +200,6 @@ def _write_keep_mtime(path, text, ref_mtime):
     """write `text`; give the file an mtime derived from its inputs (source file, harness, kit) so
     cargo's fingerprints stay valid across regenerated overlays and change when an input changes"""
     open(path, "w").write(text)
-    os.utime(path, (ref_mtime, ref_mtime))
 
 
 def sha256(path):
@@ -283,18 +283,48 @@ def build(group, cfg, profile="kani", dest=None, log=None):
         info["digests"][rel] = sha256(src)
         body = open(os.path.join(VERIF, hfile)).read()
         if profile == "replay":
-            body += _replay_entries(body)
+            body += _replay_entries(body, cfg.get("harness_names", {}).get(rel))
         target = os.path.join(dest, rel)
         m = max(os.path.getmtime(target), os.path.getmtime(os.path.join(VERIF, hfile)), kit_m)
         text = open(target).read() + "\n\n// ===== appended by /verif/kit/overlay.py (T4) from " + hfile + "\n" + body
         _write_keep_mtime(target, text, m)
+    _stamp_mtimes(dest, f"{group}-{profile}")
     return info
 
 
-def _replay_entries(body):
+def _stamp_mtimes(dest, key):
+    """cargo decides what to rebuild from mtimes. Every file of the regenerated overlay gets the mtime it had in the
+    previous overlay of the same group/profile if its CONTENT is unchanged, and the current time otherwise; so an
+    edit to /repo, to a harness or to the kit rebuilds exactly what it touches, and nothing stale is ever reused."""
+    import json
+    stamp_dir = os.path.join(VERIF, ".cache", "overlay-stamps")
+    os.makedirs(stamp_dir, exist_ok=True)
+    sp = os.path.join(stamp_dir, key + ".json")
+    try:
+        old = json.load(open(sp))
+    except Exception:
+        old = {}
+    new = {}
+    now = time.time()
+    for d, dirs, files in os.walk(dest):
+        dirs[:] = [x for x in dirs if x != "target"]
+        for f in files:
+            path = os.path.join(d, f)
+            if os.path.islink(path):
+                continue
+            rel = os.path.relpath(path, dest)
+            h = sha256(path)
+            prev = old.get(rel)
+            m = prev[1] if prev and prev[0] == h else now
+            os.utime(path, (m, m))
+            new[rel] = [h, m]
+    json.dump(new, open(sp, "w"))
+
+
+def _replay_entries(body, names=None):
     """for every harness fn, a #[test] that loads the recorded inputs and calls it.
     Harness files have one top-level `mod verif_proofs { .. }`; entries go in a sibling module."""
-    names = harness_names(body)
+    names = names or harness_names(body)
     out = ["\n#[cfg(verif_replay)]\nmod verif_replay_entries {\n"]
     for n in names:
         out.append(
